@@ -37,6 +37,7 @@ import YataProofs.FloatBound
 import YataProofs.FloatBoundEMA
 import YataProofs.FloatBoundWMA
 import YataProofs.VidyaRobust
+import YataProofs.SelectionIndex
 namespace Yata.C07
 open Yata
 variable {α : Type} {K : Type} [Field K] [LinearOrder K] [IsStrictOrderedRing K]
@@ -123,6 +124,27 @@ theorem C07_vidya_residue_cannot_leave_range (lo hi : K) (xs : List K) (s : Vidy
     (hx : ∀ x ∈ xs, lo ≤ x ∧ x ≤ hi) (hr : runM Vidya.next s xs = .ok (os, s')) : ∀ o ∈ os, lo ≤ o ∧ o ≤ hi :=
   Vidya.run_hull_any_state lo hi xs s os s' hf0 hf1 hl hh hx hr
 
+section
+variable {β K' : Type} [LinearOrder K'] [FloatLike β K'] [DecidableLT β] [DecidableLE β] {P : Nat}
+/-- the position counters of HighestIndex / LowestIndex are advanced in PeriodType arithmetic (`self.index += 1`); in
+    every invariant state (every state reachable from the constructor, by `next_spec`) they are below the window length,
+    which is at most `PeriodType::MAX − 1`: the increment never reaches the capacity of PeriodType however long the stream -/
+theorem C07_index_counter_bounded :
+    (∀ s : HighestIndex β, HighestIndex.Inv P s → s.index < s.window.size ∧ s.window.size ≤ P - 1 ∧
+        chkAdd P s.index 1 = .ok (s.index + 1)) ∧
+    (∀ s : LowestIndex β, LowestIndex.Inv P s → s.index < s.window.size ∧ s.window.size ≤ P - 1 ∧
+        chkAdd P s.index 1 = .ok (s.index + 1)) := by
+  constructor
+  · intro s h
+    have h1 := HighestIndex.index_lt h
+    have h2 : s.window.size ≤ P - 1 := h.winv.4
+    exact ⟨h1, h2, by unfold chkAdd; rw [if_pos (by omega)]⟩
+  · intro s h
+    have h1 := LowestIndex.index_lt h
+    have h2 : s.window.size ≤ P - 1 := h.winv.4
+    exact ⟨h1, h2, by unfold chkAdd; rw [if_pos (by omega)]⟩
+end
+
 example : lastN 2 (history 2 (0 : Nat) ([9, 9, 9, 9] ++ [1, 2])) = lastN 2 (history 2 5 [1, 2]) := by decide
 
 end Yata.C07
@@ -138,3 +160,4 @@ end Yata.C07
 #print axioms Yata.C07.C07_wma_float_drift_quadratic
 #print axioms Yata.C07.C07_wma_model_update
 #print axioms Yata.C07.C07_vidya_residue_cannot_leave_range
+#print axioms Yata.C07.C07_index_counter_bounded
